@@ -288,6 +288,34 @@ Theorem C10_fixed_abort_is_final : forall fw fz rd rd8 p1 s p2 t1 t,
 Proof. exact execf_abort_stops. Qed.
 Print Assumptions C10_fixed_abort_is_final.
 
+(* The wide compare branch (index type wider than usize: icmp ult index, uextend(len), in the index's own
+   width): an index EQUAL to the length aborts, for every wide unsigned type and every length.  (The narrow
+   branch is the same statement with ibits <= 64; both are instances of C10_fixed_full.) *)
+Theorem C10_fixed_wide_index_eq_len_aborts : forall rd s it mk nl st t1 ov v0 td th len base m et,
+  type_of s = Some st ->
+  compf true true rd s false = Ok (t1, Val ov) ->
+  src_val true ov = Some v0 ->
+  arr_view rd st v0 = Some (td, th, len, base, m, et) ->
+  isigned it = false -> 64 < ibits it -> 0 <= len < 2 ^ ibits it ->
+  compf true true rd (EIndex s it mk len) nl =
+    Ok (t1 ++ td ++ marker mk ++ th ++ fail_block m, Aborted).
+Proof. exact wide_index_eq_len_aborts. Qed.
+Print Assumptions C10_fixed_wide_index_eq_len_aborts.
+
+(* u128 indexes on [4]i32 at 4096: 3 reads the last element, 4 (= len) and 2^64+3 abort; a slice of
+   length 4 indexed with u128 4 aborts after the descriptor loads *)
+Example C10_fixed_wide_boundary :
+  compf true true (fun _ => 0) (EIndex (ERoot (TArr 4 (TInt 4)) 4096) u128 None 3) false
+    = Ok ([Load 4108 4], Val (Some 0)) /\
+  compf true true (fun _ => 0) (EIndex (ERoot (TArr 4 (TInt 4)) 4096) u128 None 4) false
+    = Ok ([Print MArrayOob; Exit 1], Aborted) /\
+  compf true true (fun _ => 0) (EIndex (ERoot (TArr 4 (TInt 4)) 4096) u128 None (two64 + 3)) false
+    = Ok ([Print MArrayOob; Exit 1], Aborted) /\
+  compf true true (fun a => if a =? 512 then 4 else if a =? 520 then 8192 else 0)
+        (EIndex (ERoot (TSlice (TInt 2)) 512) u128 None 4) true
+    = Ok ([Load 512 8; Load 520 8; Print MSliceOob; Exit 1], Aborted).
+Proof. repeat split; vm_compute; reflexivity. Qed.
+
 (* the witnesses of C10-1, C10-2 and C10-4 on the repaired lowering *)
 Example C10_fixed_witnesses :
   compf true false (fun _ => 0) (EIndex (ERoot (TArr 4 (TInt 4)) 4096) u128 None (two64 + 1)) false
